@@ -246,14 +246,8 @@ class OutboundSim(PeerSim):
 
     # ---------------------------------------------------------------- oracle
     def wire(self):
-        out = []
-        for (ev, cid, data, dropped) in self.writes.get("E", []):
-            frames, err, rest = refframer.split_stream(data)
-            if err or rest:
-                frames = refframer.scan_frames(data)
-            for fr in frames:
-                out.append((ev, refframer.fdict(fr), fr, dropped))
-        return out
+        """EUT frames in wire (stream) order: (evno, fdict, frame, dropped)."""
+        return [(ev, d, fr, dropped) for (ev, cid, d, fr, dropped) in self.frames_written("E")]
 
     def scan_new_frames(self):
         """Verify numbering of not yet verified wire frames; returns the new ones."""
